@@ -147,3 +147,71 @@ def shape_of(text, limit=80):
     s = ' '.join(out)
     import hashlib
     return s if len(s) <= limit else s[:limit - 20] + '#' + hashlib.md5(s.encode()).hexdigest()[:6]
+
+
+# ------------------------------------------------------------------------------------------ directed workload
+MENTION_CONTEXTS = ['plain', 'diffswitch', 'diffswitch-nested', 'diffswitch-nested-deep', 'diffswitch-in-call', 'diffswitch-in-binop', 'ternary-branch', 'if-cond', 'while-cond',
+                    'assign-op', 'unary', 'cast', 'call-arg', 'nested-block', 'times-count', 'diffswitch-in-cond', 'diffswitch-lhs-of-binop-with-dest']
+
+def gen_single_mention(rng, int_regs, float_regs, other_int, other_float, name, call_int='call_S', call_float='call_f', has_cast=True, ctxs=None, sentinel='ins_101();'):
+    """A body in which one scratch-candidate register (the victim) is mentioned exactly once, in a chosen syntactic context, while
+    the rest of the body creates register pressure (temporaries and locals of the victim's type).
+    int_regs/float_regs: scratch candidates; other_*: registers that are never scratch.  Returns a gensrc.Body (ground truth attached)."""
+    from .gensrc import Body, INT, FLOAT
+    b = Body()
+    fl = rng.chance(0.4) and float_regs and other_float
+    cands = float_regs if fl else int_regs
+    others = other_float if fl else other_int
+    if not cands or len(others) < 2: return None
+    V = rng.pick(cands); D, P = others[0], others[1]
+    v, d, p = name(V), name(D), name(P)
+    lit = (lambda: repr(float(rng.randint(1, 9)) + 0.5)) if fl else (lambda: str(rng.randint(1, 9)))
+    ctx = rng.pick(ctxs or MENTION_CONTEXTS)
+    call = call_float if fl else call_int
+    cmpv = lit()
+    if ctx == 'plain': m = '%s = %s + %s;' % (d, v, lit())
+    elif ctx == 'diffswitch': m = '%s = (%s:%s:%s:%s);' % (d, v, lit(), lit(), lit())
+    elif ctx == 'diffswitch-nested': m = '%s = ((%s:%s:%s:%s):%s:%s:%s);' % (d, v, lit(), lit(), lit(), lit(), lit(), lit())
+    elif ctx == 'diffswitch-nested-deep': m = '%s = (%s:(%s:(%s:%s:%s:%s)::):%s:%s);' % (d, lit(), lit(), v, lit(), lit(), lit(), lit(), lit())
+    elif ctx == 'diffswitch-in-call': m = '%s((%s:%s:%s:%s));' % (call, v, lit(), lit(), lit())
+    elif ctx == 'diffswitch-in-binop': m = '%s = (%s * %s) + (%s:%s:%s:%s);' % (d, p, lit(), lit(), v, lit(), lit())
+    elif ctx == 'diffswitch-lhs-of-binop-with-dest': m = '%s = (%s:%s:%s:%s) - (%s * %s);' % (d, d, v, lit(), lit(), p, lit())
+    elif ctx == 'ternary-branch': m = '%s = (%s == %s) ? %s : %s;' % (d, p, cmpv, v, lit())
+    elif ctx == 'if-cond': m = 'if (%s == %s) {\n%s = %s;\n}' % (v, cmpv, d, lit())
+    elif ctx == 'diffswitch-in-cond': m = 'if (%s == (%s:%s:%s:%s)) {\n%s = %s;\n}' % (p, lit(), v, lit(), lit(), d, lit())
+    elif ctx == 'while-cond': m = 'while (%s == %s + %s) {\n%s = %s;\nbreak;\n}' % (v, d, lit(), d, lit())
+    elif ctx == 'assign-op': m = '%s %s %s;' % (d, rng.pick(['+=', '-=', '*=']), v)
+    elif ctx == 'unary': m = '%s = -%s;' % (d, v)
+    elif ctx == 'cast':
+        if not has_cast or not other_float or not other_int: m = '%s = %s;' % (d, v)
+        elif fl: m = '%s = _S(%s);' % (name(other_int[0]), v)
+        else: m = '%s = _f(%s);' % (name(other_float[0]), v)
+    elif ctx == 'call-arg': m = '%s(%s);' % (call, v)
+    elif ctx == 'nested-block': m = '{\n{\n{\n%s = %s;\n}\n}\n}' % (d, v)
+    else:  # times-count
+        if fl: m = '%s = %s;' % (d, v)
+        else: m = 'times(%s) {\n%s = %s;\n}' % (v, d, lit())
+    # pressure: nested arithmetic that needs temporaries + simultaneously live locals of the same type
+    kind = 'float' if fl else 'int'
+    depth = rng.randint(1, 4)
+    e = '(%s * %s)' % (p, lit())
+    for _ in range(depth): e = '(%s * %s) + (%s + %s)' % (p, lit(), e, '(%s * %s)' % (d, lit()))
+    press = ['%s = %s;' % (d, e)]
+    nloc = rng.randint(0, 3)
+    names = []
+    for i in range(nloc):
+        nm = 'loc%d' % i; names.append(nm)
+        press.append('%s %s = %s + %s;' % (kind, nm, names[i - 1] if i else p, lit()))
+    if names: press.append('%s = %s;' % (d, ' + '.join(names)))
+    parts = [m] + press
+    if rng.chance(0.5): parts = press + [m]
+    b.text = '{\n' + '\n'.join(parts) + '\n' + sentinel + '\n}'
+    b.mentioned = {V, D, P} | ({other_int[0]} if ctx == 'cast' and fl and has_cast else set()) | ({other_float[0]} if ctx == 'cast' and not fl and has_cast and other_float else set())
+    b.mention_ctx = {V: {ctx}, D: {'plain'}, P: {'plain'}}
+    b.max_live_locals = {INT: 0, FLOAT: 0}
+    b.shape = ['single-mention', ctx, kind, depth, nloc]
+    b.victim = V
+    if ctx == 'times-count' and not fl: b.count_regs = {V}
+    b.anti_scratch = False
+    b.nstmts = len(parts)
+    return b
